@@ -43,7 +43,7 @@ for p in props:
 
 manifest = {
     'version': 1,
-    'setup_cmd': 'cd lean && lake build',
+    'setup_cmd': '/venv/bin/python harness/setup.py',
     'hooks': {
         'guard': 'PYTOUGH_VERIF',
         'enable': 'no source hooks are needed: the harness imports /repo modules in-process (env PYTOUGH_VERIF=1 is set by the harness but nothing in /repo reads it)',
